@@ -17,15 +17,83 @@ package ast
 //@ func LexScanner.isSymbolRune returns (ok)
 //@   pure
 //@   ensures r == ybase.EOF ==> !ok
-//@   ensures ok ==> r != 47 && r != 91 && r != 95 && r != 59 && r != 61
+//@   ensures ok == (r != ybase.EOF && !(r == 47 || r == 91 || r == 95 || r == 59 || r == 61) && !spec.is_space(r))
 
 //@ func LexScanner.isMetadataRune returns (ok)
 //@   pure
 //@   ensures r == ybase.EOF ==> !ok
-//@   ensures ok ==> r != 123 && r != 125 && r != 61 && r != 44
+//@   ensures ok == (r != ybase.EOF && r != 123 && r != 125 && r != 61 && r != 44)
 
 // the comment predicate
 //@ func LexScanner.ScanFunc$2 returns (ok)
 //@   pure
 //@   ensures r == ybase.EOF ==> !ok
 //@   ensures ok == (r != 10 && r != ybase.EOF)
+
+// ---- the reader (assumed: ybase is a dependency) ----
+
+//@ define rd(r) ghost(ghostReader, r)
+//@ define cur(r) ite(rd(r).Pos < rd(r).Len, rd(r).Text[rd(r).Pos], ybase.EOF)
+//@ define wfReader(r) r != nil && 0 <= rd(r).Pos && rd(r).Pos <= rd(r).Len && forall(i, 0, rd(r).Len, rd(r).Text[i] != ybase.EOF)
+//@ define sameInput(r) rd(r).Len == old(rd(r).Len) && rd(r).Text == old(rd(r).Text)
+
+//@ iface ybase.Reader.Peek (r) returns (x)
+//@   pure
+//@   requires r != nil
+//@   ensures x == cur(r)
+
+//@ iface ybase.Reader.Next (r) returns (x)
+//@   modifies ghostReader
+//@   requires r != nil
+//@   ensures x == old(cur(r))
+//@   ghostensures rd(r) == upd(old(rd(r)), "Pos", ite(old(rd(r).Pos) < old(rd(r).Len), old(rd(r).Pos) + 1, old(rd(r).Pos)))
+
+// DiscardWhile / NextWhile consume runes while the predicate holds of the next one. At the end of input the next
+// rune is EOF for ever: a predicate that holds of EOF never lets them return - hence the precondition.
+//@ iface ybase.Reader.DiscardWhile (r, pred)
+//@   modifies ghostReader
+//@   requires r != nil && !call(pred, ybase.EOF)
+//@   ghostensures sameInput(r) && old(rd(r).Pos) <= rd(r).Pos && rd(r).Pos <= rd(r).Len
+//@   ghostensures forall(i, old(rd(r).Pos), rd(r).Pos, call(pred, rd(r).Text[i]))
+//@   ghostensures rd(r).Pos < rd(r).Len ==> !call(pred, rd(r).Text[rd(r).Pos])
+
+//@ iface ybase.Reader.NextWhile (r, pred)
+//@   modifies ghostReader
+//@   requires r != nil && !call(pred, ybase.EOF)
+//@   ghostensures sameInput(r) && old(rd(r).Pos) <= rd(r).Pos && rd(r).Pos <= rd(r).Len
+//@   ghostensures forall(i, old(rd(r).Pos), rd(r).Pos, call(pred, rd(r).Text[i]))
+//@   ghostensures rd(r).Pos < rd(r).Len ==> !call(pred, rd(r).Text[rd(r).Pos])
+
+// ---- scanning helpers ----
+
+//@ func LexScanner.isBeginningOfNextOfSymbol returns (ok)
+//@   pure
+//@   ensures ok == (r == 47 || r == 91 || r == 95 || r == 59 || r == 61)
+
+//@ func LexScanner.scanDigits returns (ok)
+//@   modifies ghostReader
+//@   requires wfReader(r)
+//@   ensures ok == (48 <= old(cur(r)) && old(cur(r)) <= 57)
+//@   ensures sameInput(r) && wfReader(r) && rd(r).Pos >= old(rd(r).Pos) && (ok ==> rd(r).Pos > old(rd(r).Pos)) && (!ok ==> rd(r).Pos == old(rd(r).Pos))
+
+//@ func LexScanner.scanSymbol returns (ok)
+//@   modifies ghostReader
+//@   requires wfReader(r)
+//@   ensures ok == (old(cur(r)) != ybase.EOF && !(old(cur(r)) == 47 || old(cur(r)) == 91 || old(cur(r)) == 95 || old(cur(r)) == 59 || old(cur(r)) == 61) && !spec.is_space(old(cur(r))))
+//@   ensures sameInput(r) && wfReader(r) && rd(r).Pos >= old(rd(r).Pos) && (ok ==> rd(r).Pos > old(rd(r).Pos)) && (!ok ==> rd(r).Pos == old(rd(r).Pos))
+
+//@ func LexScanner.scanMetadata returns (ok)
+//@   modifies ghostReader
+//@   requires wfReader(r)
+//@   ensures ok == (old(cur(r)) != ybase.EOF && old(cur(r)) != 123 && old(cur(r)) != 125 && old(cur(r)) != 61 && old(cur(r)) != 44)
+//@   ensures sameInput(r) && wfReader(r) && rd(r).Pos >= old(rd(r).Pos) && (ok ==> rd(r).Pos > old(rd(r).Pos)) && (!ok ==> rd(r).Pos == old(rd(r).Pos))
+
+// ---- one token (C04, C09, C11): the scanner makes progress, skips every run of comments and white space, and
+// reports end of input only at the end of input (or after publishing an error in symbol mode) ----
+//@ func LexScanner.ScanFunc returns (tok)
+//@   modifies lex, ghostReader
+//@   requires lex != nil && lex.publishError != nil && wfReader(r)
+//@   decreases rd(r).Len - rd(r).Pos
+//@   ensures sameInput(r) && wfReader(r) && rd(r).Pos >= old(rd(r).Pos)
+//@   ensures tok != ybase.EOF ==> rd(r).Pos > old(rd(r).Pos)
+//@   ensures tok == ybase.EOF && !old(lex.expectSymbol) ==> rd(r).Pos == rd(r).Len
